@@ -536,12 +536,21 @@ def rule_bounded_closing(ctx):
         gg, mm, rr = an.get(caller)
         node = [n for n in gg.stmt_nodes() if any(c is call for c in node_calls(n))][0]
 
-        def bounded(n):
+        def bounded(n, depth=0):
             if any(self_call(c, "dropConnection") for c in node_calls(n)):
                 return True
             if n.kind == "stmt" and isinstance(n.ast, ast.Assign) and isinstance(n.ast.value, ast.Call) and \
                     (call_name(n.ast.value) or "").endswith("call_later"):
                 return True
+            # a private helper of the class all of whose paths drop the connection or arm a timer bounds the path as well
+            if depth < 2:
+                for c in node_calls(n):
+                    if self_call(c) and c.func.attr.startswith("_") and not c.func.attr.startswith("__"):
+                        h = ctx.program.lookup_method(wsp, c.func.attr)
+                        if h is not None and h is not caller:
+                            gh, _mh, _rh = an.get(h)
+                            if gh.always_followed_by(gh.entry, lambda x: bounded(x, depth + 1), edge_ok=edge_ok):
+                                return True
             return False
 
         def edge_ok(a, b, lab):
